@@ -376,6 +376,46 @@ func run() int {
 	}
 	close(work)
 	wg.Wait()
+	// Obligations that no solver decided within the time limit (no model, only timeouts/unknown) are retried
+	// once, a few at a time, with four times the limit: a loaded machine must not turn a proof into an alarm.
+	{
+		var retry []int
+		for i, res := range results {
+			if res.Status == "failed" && res.Script != nil && res.O.Expect != "sat" && res.O.Err == "" &&
+				res.Res.Status != "sat" && res.Res.Status != "disagree" && strings.HasPrefix(res.Reason, "not proved") {
+				retry = append(retry, i)
+			}
+		}
+		if len(retry) > 0 && len(retry) <= 12 {
+			var wg2 sync.WaitGroup
+			work2 := make(chan int)
+			for w := 0; w < 3; w++ {
+				wg2.Add(1)
+				go func() {
+					defer wg2.Done()
+					for i := range work2 {
+						res := results[i]
+						fname := fmt.Sprintf("%04d_retry_%s", i, sanitize(res.O.Name))
+						rr := solve.Race(tmp, fname, res.Script.Text, timeout*4, res.Script.HasQ, false)
+						res.Time += rr.Time
+						if rr.Status == res.O.Expect {
+							res.Res, res.Solver, res.Status = rr, rr.By, "discharged"
+							res.Reason = fmt.Sprintf("decided on retry with a %ds limit", timeout*4)
+						} else if rr.Status == "sat" {
+							res.Res = rr
+							res.Reason = "counterexample found by " + rr.By
+							res.Model = parseModel(res.Script, rr.Model, res.O)
+						}
+					}
+				}()
+			}
+			for _, i := range retry {
+				work2 <- i
+			}
+			close(work2)
+			wg2.Wait()
+		}
+	}
 	// cover checks that the solvers could not decide because of quantified assumptions are retried on the
 	// quantifier-free part of the assumptions (a contradiction among plain requires/typing facts is still found)
 	for _, res := range results {
